@@ -241,6 +241,19 @@ CHECKS["C06"] = dict(
          "rational evaluator. Numeric ∇ under torch (float32) is an open finding bounded to 6% error.",
     design_ref="DESIGN.md section 5 C06", category="exploration")
 
+CHECKS["C07"] = dict(
+    technique="TLA+ model of the gradient operators' probe protocol with fault injection (GradPurity.tla: bind the named parameter, call, "
+              "restore in finally; the function fails at its k-th evaluation), model-checked by TLC (invariant Restored) and used to emit "
+              "the scenarios; each replayed under both backends with a failing probe; recorded snapshots of all globals judged by TLC "
+              "with FrameAbs.tla (FrameTrace.tla)",
+    text="13 gradient forms (f:>p, f:>a, p∇f, a∇f, p∂g, a∂g, .jacobian, loss:>[w b], [b w], [w b w], [w w], [w b]∂g, [w w]∂g) x fault "
+         "position k = 0..8 x fault kind (raise, non-scalar result, unknown name, none) x numpy/torch: after the operator returns or fails "
+         "every global has its value, Python type, dtype and gradient-tracking flag of before, the context is as deep as before, and the "
+         "differentiated function returns what it returned before.",
+    note="Trusted: TLC, the probe callable, the snapshot function. Fault positions beyond the evaluations a backend makes do not fire "
+         "(autograd evaluates once).",
+    design_ref="DESIGN.md section 5 C07", category="fault_enumeration")
+
 NOT_YET = {}
 
 
